@@ -323,3 +323,15 @@ func isRepoStruct(t types.Type) bool {
 	_, ok := t.Underlying().(*types.Struct)
 	return ok
 }
+
+// isRefType: values of these types are references to allocated objects (or nil)
+func isRefType(t types.Type) bool {
+	switch u := t.Underlying().(type) {
+	case *types.Pointer:
+		_, ok := u.Elem().Underlying().(*types.Struct)
+		return ok
+	case *types.Map, *types.Chan:
+		return true
+	}
+	return false
+}
